@@ -179,7 +179,7 @@ int main(int argc, char **argv)
         const std::vector<Call> &AA = cu(m, "th", 0) ? A : Aq;
         ChildResult r = run_child([&](FILE *f) { dup2(fileno(f), 1); rep().reset(); transition(cfg, AA, hist, "", ci); rep().flush(); fflush(stdout); });
         if (r.kind == 0) fwrite(r.out.data(), 1, r.out.size(), stdout);
-        else rep().viol(fmt("C19.%s.%s", crash_sig(r).c_str(), mname[AA[ci].mode]), args.one, err_tail(r));
+        else rep().viol(fmt("C19.%s.%s.%s", crash_sig(r).c_str(), mname[AA[ci].mode], hist.empty() ? "fresh" : "after-history"), args.one, err_tail(r));
         rep().flush();
         return 0;
     }
